@@ -404,9 +404,10 @@ theorem validate_retype_alg (m0 : GoMap) (prot : Bool) (a : Int)
     split <;> rfl
   rw [validate_iff] at hv ⊢
   obtain ⟨hok, hall⟩ := hv
-  refine ⟨?_, ?_⟩
-  · rw [labelsOK_iff_normLabels] at hok ⊢
+  have hok' : LabelsOK (m0.map (fun e => if e.1.keyEq (lbl 1) then (e.1, GoVal.alg a) else e)) := by
+    rw [labelsOK_iff_normLabels] at hok ⊢
     rw [hnl]; exact hok
+  refine ⟨hok', ?_⟩
   · intro e' he'
     obtain ⟨e, he, rfl⟩ := List.mem_map.mp he'
     obtain ⟨l, h1, h2⟩ := hall e he
@@ -414,7 +415,7 @@ theorem validate_retype_alg (m0 : GoMap) (prot : Bool) (a : Int)
         (m0.map (fun e => if e.1.keyEq (lbl 1) then (e.1, GoVal.alg a) else e)) prot l v
         = checkParam m0 prot l v :=
       fun l v => checkParam_congr _ _
-        (fun l' hl' => hasLabel_congr_norm _ _ hnl l' l' rfl hl') prot l v
+        (fun l' hl' => hasLabel_congr_norm _ _ hnl l' l' rfl hl') hok'.1 hok.1 prot l v
     by_cases hk : e.1.keyEq (lbl 1) = true
     · simp only [hk, if_true]
       have heq : e.1 = lbl 1 :=
@@ -498,8 +499,9 @@ theorem decoded_keys_normal (enc : Bytes) (m : GoMap) (h : decProtectedContent e
     cases hk : e0.1 with
     | int k v =>
       rw [hk] at hself
-      simp only [normalizeLabel, Option.some.injEq, GoVal.int.injEq] at hself
-      exact .inl ⟨v, by rw [← hself.1], hself.2⟩
+      have hself' := normalizeLabel_int_eq_some hself
+      simp only [GoVal.int.injEq] at hself'
+      exact .inl ⟨v, by rw [hself'.1], hself'.2.symm⟩
     | str b => exact .inr ⟨b, rfl⟩
     | _ => rw [hk] at hself; simp [normalizeLabel] at hself
 
